@@ -167,8 +167,10 @@ def iter_check(ctx, res, sa, use_c, eng, q, s, nd, pen, lq, big, best_over_b, kk
         return
     info = {"engine": eng, "q": q, "s": s, "penalty": pen, "k": kk, "overlap": overlap,
             "minlength": minlength, "maxlength": maxlength, "matches": d1}
+    fnum, fden, factor_m = (169, 100, 1.3) if (kk or 0) % 2 else (289, 100, 1.7)
+    model_ranged = None
     if not use_c:
-        op = dict(dc.lean_op(big, engine="py"), op="subseq", overlap=overlap)
+        op = dict(dc.lean_op(big, engine="py"), op="subseq", overlap=overlap, rangeFactorSq=[fnum, fden])
         if kk is not None:
             op["k"] = kk
         if minlength is not None:
@@ -180,6 +182,10 @@ def iter_check(ctx, res, sa, use_c, eng, q, s, nd, pen, lq, big, best_over_b, kk
         if [m[1] for m in d1] != model_y:
             res.mismatches.append(dict(info, what="k-best iterator differs from the Lean model", model=model_y))
         res.hit("iterator_compared_with_model")
+        # the range-factor rule is modelled exactly on the squared values; equality c_l * den = c_f * num needs a value
+        # that is a multiple of 100, so below that the float comparison of the implementation cannot sit on a tie
+        if all(x == "inf" or x < 100 for x in mo["matching"]):
+            model_ranged = [tuple(x) for x in mo["ranged"]]
     if d1 != d2:
         res.violations.append(dict(info, clause="interleaved iteration over the same alignment object gives "
                                                 "the same matches", second=d2))
@@ -210,7 +216,7 @@ def iter_check(ctx, res, sa, use_c, eng, q, s, nd, pen, lq, big, best_over_b, kk
     try:
         full = [(m.idx, tuple(m.segment), float(m.value)) for m in
                 sa.kbest_matches(k=None, overlap=overlap, minlength=minlength, maxlength=maxlength)]
-        factor = 1.0 + (kk or 2) / 4.0
+        factor = factor_m
         alpha = 0.1 * ((kk or 3) % 7 + 1)
         variants = [("best_matches(max_rangefactor=%s)" % factor,
                      (sa.best_matches_fast if use_c else sa.best_matches)(max_rangefactor=factor, overlap=overlap,
@@ -235,6 +241,11 @@ def iter_check(ctx, res, sa, use_c, eng, q, s, nd, pen, lq, big, best_over_b, kk
                     res.violations.append(dict(info, clause="%s yields a prefix of the matches of the unlimited k-best "
                                                             "iterator with the same overlap and length limits" % name,
                                                variant=got, unlimited=full))
+            if name.startswith("best_matches(") and model_ranged is not None and kk is None:
+                res.hit("range_factor_compared_with_model")
+                if [m[1] for m in got] != model_ranged:
+                    res.mismatches.append(dict(info, what="best_matches(max_rangefactor) differs from the Lean model of the "
+                                                          "stopping rule", factor=factor, variant=got, model=model_ranged))
             if name.startswith("best_matches(") and got and any(v > got[0][2] * factor for _, _, v in got):
                 res.violations.append(dict(info, clause="best_matches: every value within max_rangefactor times the "
                                                         "first", variant=got))
